@@ -183,6 +183,7 @@ type Cluster struct {
 	blockHook       func(b *hg.Block)
 	finalHook       func()
 	byzHandler      func(s *Step)
+	byzGen          func(g *genState) *Step
 	emitted         map[string]string
 	emitScanned     int
 	frameHashes     map[int]frameRef
